@@ -50,6 +50,10 @@ CHECKS = {
   text='Coq theorems over an executable model of the RomFS metadata walk (iterate_dir with visited sets and table bounds) and path lookup: for EVERY pair of metadata byte strings the walk ends within fuel computed from the table sizes (it returns a tree or raises an entry/decode error; cyclic, repeated and out-of-table links are reported); case-insensitive lookups depend only on the lower-cased components, case-sensitive lookups find an entry named exactly as asked, missing components raise the not-found error; the IVFC level-3 offset expression is regenerated and proved for every block exponent. Extracted walk compared with the reader on valid images and on images with one retargeted link/length; listing, stat, walk, file bytes, case variants and error classes decided against an independent packer.',
   note='Partial: "walking a packed tree returns that tree" (C06_walk_pack) is oracle-only (generated trees), not a theorem. Trusted: Coq kernel, translator, extraction + driver, hand model Romfs.v (tie 2), packer romfs.py.',
   technique='Rocq/Coq proofs (fuel bound by a duplicate-free visited-set invariant, lookup lemmas) + correspondence on valid and corrupted tables + packer oracle'),
+ 'C10': dict(
+  text='Coq theorems over the model of the NCSD partition-table loop: for every table of 32-bit entries the listed partitions are exactly the entries with a non-zero offset, at offset*0x200 with size*0x200; wrong magic and zero media id are refused; the CDN/SD content-file resolution rule lists a record iff a file with its lower- or upper-case id exists (others unaffected). Extracted table parser compared with CCIReader.sections. The same NCCHs packaged as CCI, CDN directory (three key-supply modes, name cases, MemoryFS/OS directories), plain SD title and SD-encrypted title (through SDRoot) are checked for listing, raw bytes and nested sections against independent builders.',
+  note='Partial: the cross-packaging equality of nested readers is sampled (oracle); views rely on C02/C09/C14. Trusted: Coq kernel, extraction + driver, hand model Ncsd.v, builders pack.py / ncch.py / sdcommon.py, PyFilesystem2.',
+  technique='Rocq/Coq proof of the table codec and resolution rule + correspondence + metamorphic builder oracle'),
 }
 
 NOT_YET = 'check not built yet in this session (work in progress; see DESIGN.md section 10 order of work)'
